@@ -270,6 +270,9 @@ def shard_fn(shard, nshards, seed, tier, exe, ntrees):
                 p, mode = st[1], st[2]
                 f = ln.split()
                 rc, err, got = int(f[1]), int(f[2]), f[3]
+                if rc not in (0, -1):
+                    sh.violation("C12/undocumented-return-code/get", "json_pointer_get%s(%r) returned %d (documented: 0 or a negative value with errno set)" % ("f" if mode == 1 else "", p, rc), rep)
+                    break
                 odd = refptr.has_odd_tilde(p)
                 if mode == 1 and b"%" in p:
                     continue
@@ -300,6 +303,9 @@ def shard_fn(shard, nshards, seed, tier, exe, ntrees):
                 sp = st[1]
                 f = ln.split()
                 rc, err = int(f[1]), int(f[2])
+                if rc not in (0, -1):
+                    sh.violation("C12/undocumented-return-code/set", "json_pointer_set%s(%r) returned %d (documented: 0 or a negative value with errno set)" % ("f" if st[2] else "", sp, rc), rep)
+                    break
                 before = dump_ann(root)
                 odd = refptr.has_odd_tilde(sp)
                 try:
